@@ -25,6 +25,18 @@ CHECKS = {
    technique="bounded-exhaustive enumeration with an instrumented source: reads counted at every hand-over, all prefixes of every stream compared, three delivery modes",
    text="Every (tuple x stream) case is run in generator mode on a counting source; at each hand-over the number of frames read must be exactly the deciding frame (cut: the token's last frame; silence: the (max_silence+1)-th silent frame) or EOF; EOF is requested once; list/generator/callback agree; for every cut point k the prefix's tokens equal the tokens decided within k frames plus at most one shorter flush token.",
    note="Trusted: check_c08_timing/check_prefix in vlib/tokmodel.py. split() laziness is covered by chk_split (C05) where claimed."),
+ "C12": dict(engine="SCHED", design="3.3, 4 (C12-C14)",
+   technique="stateless model checking of the real worker threads under a controlled scheduler: all interleavings at queue/start/join granularity (state-cached DFS, persistent-set reduction for local steps), all timeout firings up to K, line-granularity schedules with bounded preemptions",
+   text="The real TokenizerWorker and observer threads (recording observers, PrintWorker) run under a baton scheduler that owns Queue.put/get/get_nowait, Thread.start/join. For every stream of <=4 (5) windows x 5 (8) observer sets, every interleaving and every pattern of <=2 (3) queue-wait timeouts is executed; each must end with all threads finished by themselves, no crash, and every observer having processed exactly split()'s detections once, in order, ids 1..n equal to the worker's detections list. A line-level pass (every line of workers.py a scheduling point, <=1 (2) preemptions) checks the assumption that threads interact only through queues.",
+   note="Trusted: vlib/sched.py (scheduler, replay-determinism self-test on every exploration, failures re-executed before being reported). Not modelled: bytecode-level preemption inside a line; more than K timeouts; real time."),
+ "C13": dict(engine="SCHED", design="3.3, 4 (C12-C14)",
+   technique="stateless model checking of reader thread vs writer thread (StreamSaverWorker) and the file-writing observers under all interleavings, cache sizes and timeout firings; preemption-bounded line-level pass",
+   text="Tokenizer reading through the real StreamSaverWorker (its writer is a controlled thread) with joiner and region-saver observers: every stream of <=4 (5) windows x cache sizes {0, 1 block, 1.5 blocks, never} x every interleaving x <=1 (2) timeouts; after termination the saved wav must hold exactly the blocks the wrapped reader produced (= the blocks the tokenizer saw) with the source's parameters, the joiner's file must equal split_and_join_with_silence(), and there must be exactly one correctly named region file per detection holding its audio.",
+   note="Trusted: vlib/sched.py and the oracle in vlib/chk_workers.py; files are compared byte for byte via the wave module. Line-level pass bounded at 2 preemptions on the 2-block stream."),
+ "C14": dict(engine="SCHED", design="3.3, 4 (C12-C14)",
+   technique="stateless model checking with the stop as one more interleaved step: stop_all() racing the running threads at every position; the real cmdline.main with a KeyboardInterrupt alternative at every sleep",
+   text="main = start_all(); stop_all(): because stop_all is main's next step, every placement of the stop relative to every read/put/get of the other threads is explored (state-cached, <=1 (2) timeouts). Second harness: the real cmdline.main(argv) with sleep as a scheduling point and Ctrl-C arriving in any sleep. Oracle: all threads end, no crash, and the observers' detections / printed lines / saved files equal split() of exactly the k blocks that were read, taken as a complete stream.",
+   note="Trusted: vlib/sched.py. Ctrl-C is modelled only inside the main loop's sleep (not during start-up or during the shutdown path itself)."),
 }
 
 NOT_YET = {}
@@ -59,7 +71,8 @@ def main():
             "add_only": True,
         },
         "engines": [
-            {"name": "ENUM", "path": "/verif/vlib", "serves_properties": sorted(CHECKS), "kind_free_text": "bounded-exhaustive enumeration of executions of the real code against reference models"},
+            {"name": "ENUM", "path": "/verif/vlib", "serves_properties": sorted(k for k in CHECKS if CHECKS[k]["engine"] != "SCHED"), "kind_free_text": "bounded-exhaustive enumeration of executions of the real code against reference models; explicit-state search with validated merging"},
+            {"name": "SCHED", "path": "/verif/vlib/sched.py", "serves_properties": sorted(k for k in CHECKS if CHECKS[k]["engine"] == "SCHED"), "kind_free_text": "controlled scheduler for the real worker threads: exhaustive interleavings and timeout firings, state-cached; preemption-bounded line-level pass"},
         ],
         "checks": checks,
         "not_applicable": [{"property_id": k, "reason": v} for k, v in sorted(NOT_YET.items())],
